@@ -43,8 +43,10 @@ Learn(m, pks) == LET new == {i \in 1..Len(pks) : <<pks[i][1], pks[i][2]>> \notin
                  [k \in {<<pks[i][1], pks[i][2]>> : i \in new} |->
                      pks[CHOOSE i \in new : <<pks[i][1], pks[i][2]>> = k][3]] @@ m
 
+\* an encoder built from a plan generated for a different block size may be refused; if it is accepted it is an encoder like any other
 WindowOk(e) ==
   LET K == KsOf(Cfg)[e.sbn + 1] IN
+  IF e.enc = "foreignplan" /\ e.res = "refused" THEN TRUE ELSE
   /\ Chk(e.res = "ok", <<"repair_packets failed", e.sbn, e.s, e.n, e.res>>)
   /\ e.res = "ok"
   /\ Chk(Len(e.packets) = e.n, <<"window length", e.s, e.n, Len(e.packets)>>)
